@@ -189,6 +189,33 @@ func s01SameRWC(r io.Reader, w io.Writer) bool {
 	return ok1 && ok2 && a == b
 }
 
+// a server plugin registered for NewUserConn: outcome 0 none registered, 1 accepts, 2 rejects, 3 fails
+type s01Plugin struct {
+	outcome   int
+	calls     int
+	takenThen int // work connections already taken from the session when the plugin was asked
+	seen      plugin.NewUserConnContent
+}
+
+func (p *s01Plugin) Name() string             { return "gate" }
+func (p *s01Plugin) IsSupport(op string) bool { return op == plugin.OpNewUserConn }
+func (p *s01Plugin) Handle(ctx context.Context, op string, content any) (*plugin.Response, any, error) {
+	p.calls++
+	p.takenThen = s01.taken
+	if c, ok := content.(plugin.NewUserConnContent); ok {
+		p.seen = c
+	}
+	switch p.outcome {
+	case 2:
+		return &plugin.Response{Reject: true, RejectReason: "no"}, nil, nil
+	case 3:
+		return nil, nil, errors.New("plugin unreachable")
+	}
+	return &plugin.Response{Unchange: true}, content, nil
+}
+
+var s01Gate *s01Plugin
+
 func s01Base(name string) (*BaseProxy, *v1.ProxyBaseConfig) {
 	cfg := &v1.TCPProxyConfig{}
 	cfg.Name, cfg.Type = name, "tcp"
@@ -201,6 +228,10 @@ func s01Base(name string) (*BaseProxy, *v1.ProxyBaseConfig) {
 		lim = &rate.Limiter{}
 	}
 	pm := plugin.NewManager()
+	s01Gate = &s01Plugin{outcome: zzverif.Choice("userConnPlugin", 4)}
+	if s01Gate.outcome != 0 {
+		pm.Register(s01Gate)
+	}
 	bp := &BaseProxy{name: name, rc: &controller.ResourceController{PluginManager: pm}, poolCount: 1, getWorkConnFn: s01GetWorkConn,
 		serverCfg: scfg, limiter: lim, configurer: cfg, ctx: context.Background()}
 	return bp, &cfg.ProxyBaseConfig
@@ -219,6 +250,18 @@ func VerifC01ServerStack() {
 	bp.handleUserTCPConnection(user)
 
 	zzverif.Assert(user.closed >= 1, "C11.user.user-conn-closed-when-done")
+	if s01Gate.outcome != 0 {
+		// the gate is asked first: a user connection the plugin refuses (or cannot be asked about)
+		// costs the session nothing - no work connection taken, no start message, nothing dialled
+		zzverif.Assert(s01Gate.calls == 1 && s01Gate.takenThen == 0, "C15.userconn.plugin-asked-before-a-work-connection-is-taken")
+		zzverif.Assert(s01Gate.seen.ProxyName == "p1" && s01Gate.seen.RemoteAddr == user.RemoteAddr().String(), "C15.userconn.plugin-told-the-proxy-and-the-user's-address")
+		if s01Gate.outcome >= 2 {
+			zzverif.Assert(s01.taken == 0 && s01.asked == 0 && s01.joins == 0 && len(w1.started) == 0 && len(w2.started) == 0, "C15.userconn.refused-user-connection-uses-no-work-connection")
+			zzverif.Reach("C15.userconn.refused")
+			return
+		}
+		zzverif.Reach("C15.userconn.allowed")
+	}
 	if s01.getFails {
 		// each request to the session may take the whole user-connection timeout: when the session
 		// cannot supply a connection the user is given up after one wait, not after one per retry
